@@ -26,7 +26,8 @@ func init() {
 			"C08.object: in the JSON object form newOrError receives only nil or the result of decodeValue / decodeUnit and hands exactly (*value, *unit) to newSize; decodeValue is strconv.ParseUint(token.(json.Number).String(), 10, 64), decodeUnit the string token unchanged — no rule bit can substitute the unit; an ignored member is consumed completely whatever its nesting (the skipper's counter as a transfer function per token class), so the pair that reaches newSize is the object's own. C08.trim: whitespace around the whole is removed without bound (a TrimSuffix/TrimPrefix with an all-space constant removes at most one). " +
 			"C08.ovf (as built): newSize is extracted as a decision table over (sign of value, integrality round trip, unit empty / in zeroUnits / in unitToValues, high word of bits.Mul64) and compared with the documented outcomes by three-valued logic; C08.text likewise for the text path (digits present, ParseUint error, unit present, RuleDisableUnit, newSize error); C08.bytes: Bytes[N] per reflect.Kind succeeds exactly on `s <= Max(kind)` for the ten integer kinds and exactly on the conversion round trip for the float kinds. " +
 			"C08.max: internal.Max/Min/SmallestNonzero switch tables pair each reflect.Kind with the boxed type and math constant of that kind (re-checked under GOARCH=386 in the thorough tier); Bytes uses Max for the ten integer kinds and the round-trip test for the float kinds; internal.Kind evaluates to reflect.TypeOf(value).Kind() (the ~T constraints admit named types, which a test for exact types misses). C08.sep: the scanning loop's transfer table over all runes (as C04.sep): only space, '_' and U+00A0 are skipped. C08.whole: under a JSON rule every success return is preceded by a whole-input check (as C12.whole), so no tail of the text is dropped. C08.json: the JSON forms as a decision table (C12.gate under this property): the number form is the text form of the json.Number token, no detour through floating point. size.New is newSize with its error wrapped (C08.ovf wrapper); the decision table of newSize has a fourth valuation for NaN (unordered with 0 and with its own conversion: must be refused), and the round-trip atom is exactly N(uint64(value)) against value; prepareNumber's returns are (accumulated digits, \"\") at the end and (accumulated digits, input from the stopping rune on) otherwise." +
-			" Added after the second rule audit: the float round trip of Bytes is three-valued (a float above the size is as wrong as one below); the division idiom value > MaxUint64/multiplier is its own three-valued atom; C08.object 'number error': every nil-error return of decodeValue lies on the nil side of the test of ParseUint's error.",
+			" Added after the second rule audit: the float round trip of Bytes is three-valued (a float above the size is as wrong as one below); the division idiom value > MaxUint64/multiplier is its own three-valued atom; C08.object 'number error': every nil-error return of decodeValue lies on the nil side of the test of ParseUint's error." +
+			" C08.mint: who may convert — uint64 ↔ Size anywhere; from any other type a number becomes a Size only inside newSize (or an unexported helper called from nowhere else), a Size becomes another number only inside Bytes (likewise): a new Scan/Value pair that converts int64 directly is reported.",
 		NotDecided:  []string{"exactness of float↔uint64 conversions at the 2^53/2^64 boundaries (platform-defined): the rule decides that the verdict is the round-trip test, not what the hardware conversion yields", "a fractional number whose product with the unit is integral (1.5 KiB) is refused by the library; the property's second sentence (fractional inputs never produce a truncated value) is taken as the reading"},
 		Assumptions: []string{"bits.Mul64 returns the exact 128-bit product", "strconv.ParseUint(s,10,64) is exact or fails"},
 		Technique:   "constant-table reading + decision-table extraction (newSize, text path, Bytes per kind, Max/Min tables) over go/ssa",
@@ -893,9 +894,9 @@ func ruleC08Mint(e *Env) {
 				switch {
 				case toSize && isU64(from), fromSize && isU64(to):
 					e.S.Ok(rule, site, construct, "uint64 ↔ Size: value-preserving", e.posOf(in))
-				case toSize && o == ns:
+				case toSize && (o == ns || onlyCalledFrom(e, o, ns, 0)):
 					e.S.Ok(rule, site, construct, "inside the checked constructor (C08.ovf)", e.posOf(in))
-				case fromSize && o == by:
+				case fromSize && (o == by || onlyCalledFrom(e, o, by, 0)):
 					e.S.Ok(rule, site, construct, "inside the checked accessor (C08.bytes)", e.posOf(in))
 				case toSize:
 					e.S.Bad(rule, site, construct, "a number of a type other than uint64 becomes a Size outside the checked constructor: a negative or fractional value, or one beyond 64 bits, wraps instead of being refused", e.posOf(in), "a negative int64")
@@ -905,4 +906,34 @@ func ruleC08Mint(e *Env) {
 			}
 		}
 	}
+}
+
+// onlyCalledFrom: fn is an unexported function of the module whose every call site lies in root or in a function
+// that is itself only called from root (two levels), and which is nowhere used as a value: a helper of root.
+func onlyCalledFrom(e *Env, fn, root *ssa.Function, depth int) bool {
+	if fn == nil || root == nil || depth > 2 || fn.Object() == nil || fn.Object().Exported() {
+		return false
+	}
+	sites := 0
+	for _, g := range flow.SortedFuncs(e.C.AllRepoFuncs()) {
+		for _, b := range g.Blocks {
+			for _, in := range b.Instrs {
+				for _, op := range in.Operands(nil) {
+					f, ok := (*op).(*ssa.Function)
+					if !ok || flow.Origin(f) != fn {
+						continue
+					}
+					ci, isCall := in.(ssa.CallInstruction)
+					if !isCall || op != &ci.Common().Value {
+						return false // used as a value
+					}
+					sites++
+					if go_ := flow.Origin(g); go_ != root && go_ != fn && !onlyCalledFrom(e, go_, root, depth+1) {
+						return false
+					}
+				}
+			}
+		}
+	}
+	return sites > 0
 }
